@@ -332,7 +332,7 @@ PROPS = {
         "timeout": {"quick": 1200, "thorough": 5400},
     },
     "C17": {
-        "lean": ["Knut.Properties.C17"],
+        "lean": ["Knut.Properties.C17", "Knut.FactsAgree.TransTable"],
         "level": "proof",
         "claim": "Lean theorems over the model of lib/common/table (TextRenderer.Render incl. both width passes and the panic outcomes, numToString, addThousandsSep, "
                  "CSVRenderer.Render with encoding/csv quoting), for all tables whose rows have a common number n>=1 of cells with non-negative indents and no line breaks, "
